@@ -28,7 +28,7 @@ def make_batch_xml(ctx, g, n):
     fails = []
     for _ in range(n):
         w = World()
-        b = DocBuilder(g, w, malformed=0.0, repeat_id=0.2, xml=True, subtypes=0.3, refused=0.15, reinstant=0.15)
+        b = DocBuilder(g, w, malformed=0.0, repeat_id=0.2, xml=True, subtypes=0.3, refused=0.15, reinstant=0.15, builtin_names=0.05)
         d, scopes = b.random_document(n_records=g.rng.randint(1, 8))
         doc = w.conts[d]
         ft = g.chance(0.5)
